@@ -463,3 +463,30 @@ void h_regcomp(void)
 	__CPROVER_assert(0, "canary");
 #endif
 }
+
+/* ================================================================== BOUNDED: ratom_read stays inside the pattern string (C11, C16) */
+/* every pattern tail of up to 4 bytes (all byte values, ill-formed UTF-8 included) followed by
+ * ')' and the terminator (rset_make wraps every pattern in parentheses): the atom reader never
+ * reads or steps past the terminator, and the literal it copies is a prefix of the tail */
+void h_ratom_read_bounded(void)
+{
+	char p[7];
+	int i, n = nondet_int();
+	struct ratom ra;
+	__CPROVER_assume(1 <= n && n <= 4);
+	for (i = 0; i < 5; i++)
+		p[i] = nondet_char();
+	for (i = 0; i < 4; i++)
+		__CPROVER_assume(i >= n || p[i] != 0);
+	p[n] = ')';
+	p[n + 1] = 0;
+	char *pat = p;
+	ra.s = 0;
+	ratom_read(&ra, &pat);
+	__CPROVER_assert(pat > p && pat <= p + n + 1, "ratom_read: the reader consumes at least one byte and stops at or before the terminator");
+	if (ra.ra == RA_CHR)
+		__CPROVER_assert(ra.s != 0 && ra.s[pat - p - (p[0] == '\\' ? 1 : 0)] == 0, "ratom_read: the literal copied is exactly the bytes consumed");
+#ifdef CANARY
+	__CPROVER_assert(0, "canary");
+#endif
+}
